@@ -213,8 +213,14 @@ def snapshot_rule(rule) -> dict:
         intent, canon = None, None
     if canon is not None and intent is not None:
         derived = {k: cfg[k] for k in ("verb", "verbs", "dir", "exc", "anything")}
-        if derived != canon and not (cfg["exc"] and not cfg["anything"] and canon["anything"]):  # (an applied 'anything' rule is stored as 'except itself')
-            HUB.acc.count("rule_flags_differ_from_the_calls_the_caller_made")
+        if derived != canon:
+            if cfg["exc"] and not cfg["anything"] and canon["anything"]:
+                # an applied 'anything' rule may be stored as 'except itself' (the library's alias conversion): the rule is
+                # still what the caller said - 'anything' over ALL the subjects given, also those the conversion dropped
+                HUB.acc.count("applied_anything_rules_judged_by_the_calls_the_caller_made")
+                cfg["subs"] = list(intent[0])
+            else:
+                HUB.acc.count("rule_flags_differ_from_the_calls_the_caller_made")
             cfg.update(canon)
             if canon["anything"]:
                 cfg["objs"] = []
